@@ -242,11 +242,12 @@ theorem readLine_last (chunk : Nat) (_h : 2 ≤ chunk) (rest : Bytes) (e : Bool)
 /-- **readLine_delim**: `readLine(char newline)` returns the bytes before the next delimiter and leaves the
     stream behind it (no CR handling: the delimiter is the caller's); without a delimiter it returns the rest
     and sets the end-of-file indicator -/
-theorem readLine_delim (delim : UInt8) (pre post rest : Bytes) (hpre : ∀ b ∈ pre, b ≠ delim) (hrest : ∀ b ∈ rest, b ≠ delim) :
-    readLineDelim delim ⟨pre ++ delim :: post, false⟩ = (pre, ⟨post, false⟩) ∧
-    readLineDelim delim ⟨rest, false⟩ = (rest, ⟨[], true⟩) := by
+theorem readLine_delim (delim : UInt8) (pre post rest : Bytes) (e : Bool) (hpre : ∀ b ∈ pre, b ≠ delim)
+    (hrest : ∀ b ∈ rest, b ≠ delim) :
+    readLineDelim delim ⟨pre ++ delim :: post, e⟩ = (pre, ⟨post, e⟩) ∧
+    readLineDelim delim ⟨rest, e⟩ = (rest, ⟨[], true⟩) := by
   have gen1 : ∀ (pre racc : Bytes), (∀ b ∈ pre, b ≠ delim) →
-      readDelimLoop delim (pre ++ delim :: post) false racc = (racc.reverse ++ pre, ⟨post, false⟩) := by
+      readDelimLoop delim (pre ++ delim :: post) e racc = (racc.reverse ++ pre, ⟨post, e⟩) := by
     intro pre
     induction pre with
     | nil => intro racc _; simp [readDelimLoop]
@@ -257,7 +258,7 @@ theorem readLine_delim (delim : UInt8) (pre post rest : Bytes) (hpre : ∀ b ∈
       rw [ih (c :: racc) (fun b hb => h b (by simp [hb]))]
       simp
   have gen2 : ∀ (rest racc : Bytes), (∀ b ∈ rest, b ≠ delim) →
-      readDelimLoop delim rest false racc = (racc.reverse ++ rest, ⟨[], true⟩) := by
+      readDelimLoop delim rest e racc = (racc.reverse ++ rest, ⟨[], true⟩) := by
     intro rest
     induction rest with
     | nil => intro racc _; simp [readDelimLoop]
@@ -269,10 +270,15 @@ theorem readLine_delim (delim : UInt8) (pre post rest : Bytes) (hpre : ∀ b ∈
       simp
   exact ⟨by simpa [readLineDelim] using gen1 pre [] hpre, by simpa [readLineDelim] using gen2 rest [] hrest⟩
 
-/-- **readLine_delim_total**: `readLine(char)` through an object whose stream cannot be read (opened for writing) comes
-    back at once with the empty string, only the error indicator set (repair 95952ce: it used to loop forever);
-    on a readable stream it consumes at most what is there (the model function is structurally recursive on the
-    unread bytes, so it always returns) -/
+/-- **readLine_delim_total** — *definitional for the unreadable case*: the first conjunct only unfolds the `else` branch of
+    `hreadLineDelim`, which transcribes what libc does on a stream that cannot be read (the one-byte `read` fails at once
+    with the error indicator set).  The repair 95952ce (the loop used to test `feof` only and never ended there) cannot
+    be expressed in the model — `readDelimLoop` is structurally recursive, so it always returns, and on readable streams
+    the pre-repair loop computes the same function; that repair is checked by K only (`rlc` through writers, `xwrlc`,
+    `xdirrlc`, the harness watchdog) and by the shape check of `translate()`.  The second conjunct (a readable stream:
+    the result is no longer than what is there) is a real, if modest, statement about `readDelimLoop`.
+    *Not proved (suggested by the audit): a model in which `fread` can fail without EOF, with the loop written with fuel,
+    termination for the `read < 1` break and a non-termination witness for the `feof`-only test.* -/
 theorem readLine_delim_total (h : Handle) (delim : UInt8) :
     (h.sm.canRead = false → hreadLineDelim h delim = ([], { h with err := true })) ∧
     (h.sm.canRead = true → (hreadLineDelim h delim).1.length ≤ h.rs.rest.length) := by
@@ -294,16 +300,23 @@ theorem readLine_delim_total (h : Handle) (delim : UInt8) :
     have := gen h.rs.rest [] h.rs.eof
     simpa [hreadLineDelim, hc, readLineDelim] using this
 
-/-- **failed_read_ends**: after a read through a stream that cannot be read (an object that is open for writing),
-    `end()` is true — so the documented loop `while (!f.end()) f.readLine();` stops after its first iteration (repair
-    4bfeeba: `end()` used to look at `feof` only and the loop never ended); on a readable stream `end()` is the
-    end-of-file indicator, as before -/
+/-- **failed_read_ends** — *definitional*: after `read(p, n ≥ 1)`, `readLine(String&)` or `readLine(char)` through a stream
+    that cannot be read (an object open for writing) the model's `end()` is true, because `hread` / `hreadLine` /
+    `hreadLineDelim` set the error indicator there (what libc does) and `hend` is `eof || err` (what `end()` is after the
+    repair 4bfeeba).  The statement unfolds those definitions; that the *code's* loop `while (!f.end()) f.readLine();`
+    now stops is checked by K only (`xwend`, `xdirend`, `r`/`rl`/`rlc`/`end` through writer sessions) and by the shape
+    check of `translate()`.  On a readable stream `end()` is the end-of-file indicator, as before. -/
 theorem failed_read_ends (h : Handle) (chunk : Nat) (delim : UInt8) :
     (h.sm.canRead = false → hend (hreadLine chunk h).2 = true ∧ hend (hreadLineDelim h delim).2 = true ∧
-      (hreadLine chunk h).1 = ([], false)) ∧
+      (hreadLine chunk h).1 = ([], false) ∧ (∀ n, 0 < n → hend (hread h n).2 = true ∧ (hread h n).1 = []) ∧
+      hread h 0 = ([], h)) ∧
     (h.sm.canRead = true → h.err = false → hend (hreadLine chunk h).2 = (readLine chunk h.rs).2.eof) := by
   constructor
-  · intro hc; simp [hend, hreadLine, hreadLineDelim, hc]
+  · intro hc
+    refine ⟨by simp [hend, hreadLine, hc], by simp [hend, hreadLineDelim, hc], by simp [hreadLine, hc], ?_, by simp [hread, hc]⟩
+    intro n hn
+    have : n ≠ 0 := by omega
+    simp [hend, hread, hc, this]
   · intro hc he; simp [hend, hreadLine, hc, he]
 
 -- hypotheses are satisfiable / the statements are not vacuous: a 3-byte chunk on "ab\r\ncd"
@@ -797,6 +810,14 @@ that moment), closed, then read back *through the same object*. -/
 theorem obj_close_erases (o : Obj) :
     o.close = { path := o.path, isText := o.isText, file := none, info := .empty } := rfl
 
+/-! **Scope of the theorems about objects that are open for writing** (`obj_reads` open branch, `obj_write_query_close` "while
+it is still open", `obj_copy_move_preserve`, `obj_open_closes`): the model has no stdio buffer (it writes through), so
+these statements are about the code only under the assumption, listed in `ASSUMPTIONS`, that `fflush`/`fclose` deliver all
+bytes given to `fwrite` and that every observation path of an open object calls one of them first.  That each path does
+so is shape-checked by `translate()` and compared on real files by K (`xputread`, `xobjcopy`, `xreopen`, `hcopy`, the
+h-histories); the theorems themselves would hold verbatim for the code before the repairs ae75f36 (flush half),
+b3be5cd and a48095a, so they are no evidence for those repairs. -/
+
 /-- **obj_reads**: in whatever state an object is — not open, or open in any mode at any position, with anything
     cached — its whole-file readers answer from the path's current bytes: `content()` all of them, `firstBytes(n)`
     the first `n`, `text()` and `lines()` the text and the lines of a fresh `TextFile`; `size()` is their number for
@@ -1158,9 +1179,13 @@ theorem obj_copy_move_preserve (d : Disk) (p q : Nat) (t : Bool) (m : OpenMode) 
     exact move_preserves r.1 p q c xdev key.1 hq
   · simp [Obj.move, hopen, Obj.close]
 
-/-- **full_device**: a destination that accepts no byte: copying a non-empty file to it is reported as a failure and
-    moving it there leaves the source where it is (repair 78aac25: the copy used to report success and the move then
-    deleted the source); only the empty file can be "moved" there -/
+/-- **full_device** — *a modelled outcome, not a derived one*: `copyToFull` / `moveToFull` state what `Directory::copy` /
+    `Directory::move` answer for a destination that accepts no byte (`/dev/full`) after the repair 78aac25 — a non-empty file
+    is reported as not copied and a move leaves the source where it is; only the empty file can be "moved" there.  The outcome
+    `(c.isEmpty, d)` is written into the definitions: the model's `fwrite` has no failure mode and `copy` has no failing
+    flush, so this theorem only records consequences of those two definitions (the move never removes a non-empty source).
+    That the code behaves like them is checked by K only (`xfull`, `copy/move/hcopy/hmove … full`) and by the shape check
+    of `translate()`. -/
 theorem full_device (d : Disk) (p : Nat) (c : Bytes) (h : d p = some c) :
     (c ≠ [] → copyToFull d p = (false, d) ∧ moveToFull d p = (false, d)) ∧
     (c = [] → copyToFull d p = (true, d) ∧ moveToFull d p = (true, d.set p none)) := by
